@@ -7,6 +7,7 @@ import (
 	"strings"
 
 	modeltypes "github.com/SaoNetwork/sao/x/model/types"
+	nodetypes "github.com/SaoNetwork/sao/x/node/types"
 	ordertypes "github.com/SaoNetwork/sao/x/order/types"
 )
 
@@ -375,6 +376,25 @@ func (g *Gen) live() liveInfo {
 	ctx := g.W.C.Ctx()
 	app := g.W.C.App
 	return liveInfo{orders: app.OrderKeeper.GetAllOrder(ctx), shards: app.OrderKeeper.GetAllShard(ctx), metas: app.ModelKeeper.GetAllMetadata(ctx)}
+}
+
+// fishmen: the accounts (indices) the parameter store currently lists as fishmen
+func (g *Gen) fishmen() []int {
+	out := []int{}
+	sub, found := g.W.C.App.ParamsKeeper.GetSubspace(nodetypes.ModuleName)
+	if !found {
+		return out
+	}
+	var info string
+	sub.Get(g.W.C.Ctx(), nodetypes.KeyFishmenInfo, &info)
+	for _, f := range strings.Split(info, ",") {
+		for i, a := range g.W.C.Accounts {
+			if a.Addr.String() == f {
+				out = append(out, i)
+			}
+		}
+	}
+	return out
 }
 
 func (g *Gen) acctIndex(addr string) int {
@@ -1408,6 +1428,14 @@ func (g *Gen) faultTx() Op {
 		// governance changes who the fishmen are: accounts 1,2 (the genesis list), 2,3 or 1 alone
 		return Op{K: "govfishmen", Fish: [][]int{{2, 3}, {3, 4}, {2}}[r.Intn(3)]}
 	}
+	// who the fishmen are now (the list may have been changed): most reports come from one of them
+	fishNow := g.fishmen()
+	if len(fishNow) > 0 && reporter != 11 && r.Chance(70) {
+		reporter = fishNow[int(reporter)%len(fishNow)]
+	}
+	if len(fishNow) == 0 {
+		fishNow = []int{1, 2}
+	}
 	if r.Chance(10) {
 		// a fishman reports the destination of a migration that has not taken the shard over yet
 		for _, x := range li.shards {
@@ -1415,7 +1443,7 @@ func (g *Gen) faultTx() Op {
 				for _, o := range li.orders {
 					for _, id := range o.Shards {
 						if id == x.Id {
-							return Op{K: "report", Creator: []int{1, 2}[r.Intn(2)], Provider: g.acctIndex(x.Sp) + 1,
+							return Op{K: "report", Creator: fishNow[r.Intn(2)%len(fishNow)], Provider: g.acctIndex(x.Sp) + 1,
 								Faults: []FaultIn{{DataId: o.DataId, OrderId: o.Id, ShardId: x.Id, CommitId: "no-such-commit", Provider: g.acctIndex(x.Sp) + 1}}}
 						}
 					}
@@ -1440,7 +1468,7 @@ func (g *Gen) faultTx() Op {
 				}
 				for _, o := range li.orders {
 					if o.Id == a.OrderId {
-						return Op{K: "report", Creator: []int{1, 2}[r.Intn(2)], Provider: nd + 1,
+						return Op{K: "report", Creator: fishNow[r.Intn(2)%len(fishNow)], Provider: nd + 1,
 							Faults: []FaultIn{{DataId: o.DataId, OrderId: o.Id, ShardId: b.Id, CommitId: "no-such-commit", Provider: nd + 1}}}
 					}
 				}
